@@ -192,6 +192,37 @@ pub fn run(tier: Tier) -> Report {
                     }
                 }
             }
+            // a comment in every single gap of the focus declaration (also inside parameters,
+            // types, expressions): whatever the formatter does with it, formatting its own
+            // output again must not change anything
+            if i % (4 * step) == 0 || it.family == "G1-whole-programs" {
+                for g in crate::checks::c04::focus_gaps(&pr, it.focus_decl) {
+                    let r = render(&pr.toks, Layout::Spaces, &[g], &|g| format!(" c{}", g));
+                    evals.fetch_add(2, Ordering::Relaxed);
+                    let first = match formatted(&r.text, &[DEFAULT_OPT]) {
+                        Ok(f) => f,
+                        Err(e) => {
+                            out.push(Failure { key: "format:error".into(), case: json!({"text": r.text, "family": it.family}), detail: e });
+                            continue;
+                        }
+                    };
+                    let Some(t) = &first[0].0 else { continue };
+                    match formatted(t, &[DEFAULT_OPT]) {
+                        Ok(again) if !again[0].1 => {
+                            let place = owner_key(&pr, g);
+                            if !out.iter().any(|f: &Failure| f.key.ends_with(&place)) {
+                                out.push(Failure {
+                                    key: format!("format:not-idempotent:comment:{}", place),
+                                    case: json!({"text": t, "family": it.family, "source": r.text}),
+                                    detail: format!("comment in gap {}: the formatted text {:?} is formatted again to {:?}", g, t, again[0].0),
+                                });
+                            }
+                        }
+                        Ok(_) => {}
+                        Err(e) => out.push(Failure { key: "format:error".into(), case: json!({"text": t, "family": it.family}), detail: e }),
+                    }
+                }
+            }
             out
         })
         .collect();
